@@ -32,7 +32,7 @@ REAL_COMPONENTS = ["cli _run launch loop", "expand_run_space (plan source)", "Ru
 STUB_COMPONENTS = ["leaf processors", "SvOrchestrator/RecordingExecutor selected from YAML", "SimClock/SimUUID", "file seam"]
 ASSUMPTIONS = ["the plan is taken from expand_run_space (C08 is not claimed)", "trace content is compared after removing the C10 "
                "volatile fields and the run-space FK fields (launch id, attempt, index, context)"]
-REQUIRED_PROBES = ["other_process_other_hashseed", "failing_run", "source_file", "idempotency_key", "explicit_launch_id", "attempt_gt_1", "multi_run_launch", "directory_mode"]
+REQUIRED_PROBES = ["empty_plan", "yaml_not_in_cwd_with_source_and_decoy", "other_process_other_hashseed", "failing_run", "source_file", "idempotency_key", "explicit_launch_id", "attempt_gt_1", "multi_run_launch", "directory_mode"]
 CONFIG = {
     "quick": {"runs": 800, "budget_s": 240, "timeout_s": 180},
     "thorough": {"runs": 30000, "budget_s": 1600, "timeout_s": 180},
@@ -58,8 +58,18 @@ def generate(rng: random.Random, tier: str, seed: int) -> dict:
           "attempt": rng.choice([1, 1, 2, 3]), "fail_at": rng.choice([None, None, 0, 1, 2, 3]),
           "fail_node": rng.randrange(len(base["nodes"])), "mut_seed": rng.getrandbits(32)}
     sc["rs_file"] = rng.random() < 0.2
+    sc["subdir"] = rng.random() < 0.35          # the YAML (and its source files) live in cfg/, the CLI runs from the parent directory
+    if rng.random() < 0.06:
+        # a legal run space that expands to ZERO runs
+        sc["run_space"] = {"blocks": [{"mode": "combinatorial", "context": {"rs_empty": [], "rs_other": [1.0, 2.0]}}]}
+        sc["files"] = {}
+        sc["fail_at"] = None
     sc["hashseed"] = rng.choice([1, 2, 3, 5, 6, 7, 11]) if (rsd["files"] or rng.random() < 0.15) else None
     return sc
+
+
+def _pfx(sc: dict) -> str:
+    return "cfg/" if sc.get("subdir") else ""
 
 
 def _plan(sc: dict, cfg_name: str):
@@ -82,20 +92,21 @@ def _rs_keys(rs: dict) -> set:
 
 def _launch(sc: dict, w, name: str, run_space: dict, *, opt: str, idem: str = "k1", faults=None, extra=()) -> dict:
     base = sc["base"]
-    harness.write_cli_config(base, f"{name}.yaml", trace=harness.trace_cfg(sc["mode"], sc["detail"], name), run_space=run_space)
-    argv = ["run", f"{name}.yaml", "--run-space-attempt", str(sc["attempt"])]
+    pfx = _pfx(sc)
+    harness.write_cli_config(base, f"{pfx}{name}.yaml", trace=harness.trace_cfg(sc["mode"], sc["detail"], name), run_space=run_space)
+    argv = ["run", f"{pfx}{name}.yaml", "--run-space-attempt", str(sc["attempt"])]
     if sc.get("rs_file") and name == "launch_rsfile":
         # same plan, but the run space comes from a separate file given on the command line
         import yaml
-        harness.write_cli_config(base, f"{name}.yaml", trace=harness.trace_cfg(sc["mode"], sc["detail"], name), run_space=None)
-        with open(f"{name}_rs.yaml", "w") as f:
+        harness.write_cli_config(base, f"{pfx}{name}.yaml", trace=harness.trace_cfg(sc["mode"], sc["detail"], name), run_space=None)
+        with open(f"{pfx}{name}_rs.yaml", "w") as f:
             f.write(yaml.safe_dump({"run_space": run_space}, sort_keys=False))
-        argv += ["--run-space-file", f"{name}_rs.yaml"]
+        argv += ["--run-space-file", f"{pfx}{name}_rs.yaml"]
     if opt == "explicit":
         argv += ["--run-space-launch-id", "launch-explicit-001"]
     elif opt == "idem":
         argv += ["--run-space-idempotency-key", idem]
-    plan = _plan(sc, f"{name}.yaml") if not (sc.get("rs_file") and name == "launch_rsfile") else _plan(sc, "plan.yaml")
+    plan = _plan(sc, f"{pfx}{name}.yaml") if not (sc.get("rs_file") and name == "launch_rsfile") else _plan(sc, f"{pfx}plan.yaml")
     plan_keys = set().union(*[set(r) for r in plan]) if plan else set()
     for k, v in base["context"].items():
         if k not in plan_keys:
@@ -165,8 +176,8 @@ def _fork_call(fn):
     return json.loads(b"".join(chunks))
 
 
-def _inspect_spec_id(name: str) -> str | None:
-    r = harness.run_cli(["inspect", f"{name}.yaml"])
+def _inspect_spec_id(name: str, pfx: str = "") -> str | None:
+    r = harness.run_cli(["inspect", f"{pfx}{name}.yaml"])
     m = re.search(r"^- Run-Space Config ID:\s*(\S+)", r["stdout"], re.M)
     return m.group(1) if m else None
 
@@ -194,6 +205,19 @@ def _mutate_plan(rs: dict, rng: random.Random) -> dict | None:
     return rs
 
 
+def _write_files(sc: dict) -> None:
+    """Source files next to the YAML; when the YAML lives in cfg/, same-named DECOYS with other content sit in the cwd."""
+    pfx = _pfx(sc)
+    if pfx:
+        os.makedirs("cfg", exist_ok=True)
+    for fn, text in sc["files"].items():
+        with open(pfx + fn, "w") as f:
+            f.write(text)
+        if pfx:
+            with open(fn, "w") as f:
+                f.write(re.sub(r"(\d+\.\d+)", lambda m: str(float(m.group(1)) + 7000.0), text))
+
+
 def _child_main() -> int:
     """Fresh interpreter (other PYTHONHASHSEED): `inspect` and one launch of the same configuration in the same directory."""
     harness.setup_process()
@@ -201,12 +225,10 @@ def _child_main() -> int:
     sc, seed = req["sc"], req["seed"]
     w = SimWorld(seed, lane="c09")
     try:
-        for fn, text in sc["files"].items():
-            with open(fn, "w") as f:
-                f.write(text)
+        _write_files(sc)
         L = _launch(sc, w, "launch", sc["run_space"], opt=sc["launch_opt"])
         st = next((r for r in L["records"] if r.get("record_type") == "run_space_start"), {})
-        out = {"inspect_spec_id": _inspect_spec_id("launch"), "trace_spec_id": st.get("run_space_spec_id"),
+        out = {"inspect_spec_id": _inspect_spec_id("launch", _pfx(sc)), "trace_spec_id": st.get("run_space_spec_id"),
                "inputs_id": st.get("run_space_inputs_id"), "launch_id": st.get("run_space_launch_id"), "sandbox": w.sandbox}
     finally:
         w.close()
@@ -236,21 +258,35 @@ def execute(sc: dict, seed: int) -> dict:
     try:
         if other is not None and other.get("sandbox") != w.sandbox:
             other = None   # directory collision: ids containing the path are not comparable
-        for fn, text in sc["files"].items():
-            with open(fn, "w") as f:
-                f.write(text)
+        _write_files(sc)
         rs = sc["run_space"]
         # plan (from the repo's own expansion) and standalone runs in forked children BEFORE the launch
-        harness.write_cli_config(sc["base"], "plan.yaml", run_space=rs)
+        harness.write_cli_config(sc["base"], _pfx(sc) + "plan.yaml", run_space=rs)
         try:
-            plan = _plan(sc, "plan.yaml")
+            plan = _plan(sc, _pfx(sc) + "plan.yaml")
         except Exception as e:  # noqa: BLE001
             stats["discarded_base_mismatch"] = 1
             return {"violations": [], "stats": stats, "digests": [], "nontrivial": [], "note": f"plan failed: {e}"}
         n = len(plan)
         if n == 0:
-            stats["empty_plan"] = 1
-            return {"violations": [], "stats": stats, "digests": [], "nontrivial": []}
+            # a launch with nothing to do is still a launch: bracketed, truthful counts, exit 0, no run
+            stats["probe.empty_plan"] = 1
+            L = _launch(sc, w, "launch", rs, opt=sc["launch_opt"])
+            types = [r.get("record_type") for r in L["records"]]
+            where = f"empty plan launch exit={L['cli']['code']} types={types} stderr={L['cli']['stderr'][:120]!r}"
+            if types.count("run_space_start") != 1 or types[:1] != ["run_space_start"]:
+                viols.append(oracles.V("bracket", "run_space_start:empty_plan", where))
+            if types.count("run_space_end") != 1 or types[-1:] != ["run_space_end"]:
+                viols.append(oracles.V("bracket", "run_space_end:empty_plan", where))
+            for r in L["records"]:
+                if r.get("record_type") == "run_space_end" and ((r.get("summary") or {}).get("planned_runs", 0) != 0 or (r.get("summary") or {}).get("completed_runs", 0) != 0):
+                    viols.append(oracles.V("counts", "empty_plan", where + f" summary={r.get('summary')}"))
+            if "pipeline_start" in types or L["run_inputs"]:
+                viols.append(oracles.V("plan_order", "run_executed_for_empty_plan", where))
+            if L["cli"]["code"] != 0:
+                viols.append(oracles.V("exit_code", "empty_plan", where))
+            return {"violations": viols, "stats": stats, "digests": [_digest(rs)], "nontrivial": [], "digest": w.digest(),
+                    "sample": {"run_space": rs, "record_types": types}}
         fail_at = sc["fail_at"] if (sc["fail_at"] is not None and sc["fail_at"] < n) else None
         fault = {"site": "executor_pre", "kind": "exception", "node": sc["fail_node"]}
         ctx0 = sc["base"]["context"]
@@ -345,7 +381,7 @@ def execute(sc: dict, seed: int) -> dict:
         # ---- identity: inspect vs trace, cosmetic rewrite, mutation, idempotency, inputs id
         spec_id = rs_start[0].get("run_space_spec_id") if rs_start else None
         inputs_id = rs_start[0].get("run_space_inputs_id") if rs_start else None
-        insp = _inspect_spec_id("launch")
+        insp = _inspect_spec_id("launch", _pfx(sc))
         if spec_id is not None and insp != spec_id:
             viols.append(oracles.V("spec_id", "inspect_ne_trace", f"{where}; inspect prints {insp}, run_space_start has {spec_id}"))
         if other is not None:
@@ -389,7 +425,7 @@ def execute(sc: dict, seed: int) -> dict:
         if sc["files"]:
             stats["probe.source_file"] = 1
             fn = sorted(sc["files"])[0]
-            with open(fn, "w") as f:       # rewrite identical content (mtime changes, content does not)
+            with open(_pfx(sc) + fn, "w") as f:       # rewrite identical content (mtime changes, content does not)
                 f.write(sc["files"][fn])
             L5 = _launch(sc, w, "touched", rs, opt="generated")
             s5 = next((r for r in L5["records"] if r.get("record_type") == "run_space_start"), {})
@@ -397,7 +433,7 @@ def execute(sc: dict, seed: int) -> dict:
                 viols.append(oracles.V("inputs_id", "changes_without_content_change", f"{where}; {inputs_id} vs {s5.get('run_space_inputs_id')}"))
             text = sc["files"][fn]
             changed = re.sub(r"(\d+\.\d+)", lambda m: str(float(m.group(1)) + 500.0), text, count=1)
-            with open(fn, "w") as f:
+            with open(_pfx(sc) + fn, "w") as f:
                 f.write(changed)
             L6 = _launch(sc, w, "changed", rs, opt="generated")
             s6 = next((r for r in L6["records"] if r.get("record_type") == "run_space_start"), {})
@@ -416,6 +452,10 @@ def execute(sc: dict, seed: int) -> dict:
             stats["probe.multi_run_launch"] = 1
         if sc["mode"] == "dir":
             stats["probe.directory_mode"] = 1
+        if sc.get("subdir"):
+            stats["probe.yaml_not_in_cwd"] = 1
+            if sc["files"]:
+                stats["probe.yaml_not_in_cwd_with_source_and_decoy"] = 1
         stats["launches"] = 2 + (1 if mut else 0) + (2 if sc["files"] else 0) + (1 if sc["launch_opt"] == "idem" else 0)
         stats["planned_runs"] = n
         stats["sim_seconds"] = 0.0265 * w.clock.reads
